@@ -8,6 +8,7 @@
 import Stab.Lemmas.EngineBasic
 import Stab.Lemmas.EngineClaim
 import Stab.Lemmas.EngineCancel
+import Stab.Lemmas.EngineCrash
 
 namespace Stab.Props.C17
 open Stab Stab.Engine
@@ -123,6 +124,17 @@ theorem canceled_drained_is_final (c : Cfg) (ops : List Op) (ha : Acked ops)
     (hc : (run c ops).canceled = true) (hq : (run c ops).queue = []) : (run c ops).wfStatus.isComplete = true :=
   Stab.Engine.canceled_drained_is_final c ops ha hc hq
 
+/-- **... also when workers die and deliveries are never acknowledged.**  The same conclusion for every schedule made of
+    acknowledged deliveries, deliveries that are not acknowledged (and come back any number of times), a worker killed
+    after ANY number of durable commits of ANY delivery (`Op.crash id k` - in particular between CancelWorkflow's flag
+    commit and its fan-out commit, the F40 window), cancel requests, signals and recovery sweeps; the only operation
+    left out is a second worker's delivery nested inside a task execution (`NoNested`).  The invariant (`CancInv2`,
+    `Lemmas/EngineCrash.lean`): canceled ⇒ the workflow is final, or an UNPROCESSED CompleteWorkflow or CancelWorkflow
+    row is queued - a killed CancelWorkflow whose flag commit is durable is itself such a row. -/
+theorem canceled_drained_is_final_crash (c : Cfg) (ops : List Op) (hn : NoNested ops)
+    (hc : (run c ops).canceled = true) (hq : (run c ops).queue = []) : (run c ops).wfStatus.isComplete = true :=
+  Stab.Engine.canceled_drained_is_final_crash c ops hn hc hq
+
 -- non-vacuity: a canceled state exists and is reached by an actual run of a one-stage workflow
 def demoStage : StageCfg :=
   { reqs := [], join := JoinType.and, threshold := 0, cont := false, failp := true, enabled := none,
@@ -139,5 +151,18 @@ example : Acked [Op.deliver 1, Op.cancel, Op.deliver 3, Op.deliver 2, Op.deliver
   simp only [List.mem_cons, List.mem_nil_iff, or_false] at hop
   rcases hop with rfl | rfl | rfl | rfl | rfl | rfl | rfl | rfl
   all_goals first | exact Or.inl ⟨_, rfl⟩ | exact Or.inr (Or.inl rfl)
+
+-- the hypotheses of `canceled_drained_is_final_crash` are met by a run in which the worker handling the cancel dies between
+-- the flag commit and the fan-out commit, a recovery sweep runs, a StartStage is delivered without ack, and the queue drains
+def crashOps : List Op :=
+  [Op.deliver 1, Op.cancel, Op.crash 3 1, Op.sweep, Op.deliverNoAck 2, Op.deliver 3, Op.deliver 2, Op.deliver 4, Op.deliver 5,
+   Op.deliver 6, Op.deliver 7, Op.deliver 8]
+
+example : NoNested crashOps ∧ (run demoCfg crashOps).canceled = true ∧ (run demoCfg crashOps).queue = [] ∧
+    (run demoCfg (crashOps.take 4)).canceled = true ∧ (run demoCfg (crashOps.take 4)).wfStatus = .running := by
+  refine ⟨?_, by decide, by decide, by decide, by decide⟩
+  intro op hop id inner
+  simp only [crashOps, List.mem_cons, List.mem_nil_iff, or_false] at hop
+  rcases hop with rfl | rfl | rfl | rfl | rfl | rfl | rfl | rfl | rfl | rfl | rfl | rfl <;> simp
 
 end Stab.Props.C17
